@@ -311,6 +311,22 @@ def gen_run_scenario(rng, feats, cycles=None):
             g.progs.append(p)
             g.comps[0]['handlers'].append({'names': [str(r.randint(1, g.nnames))], 'chan': None, 'prio': 0,
                                            'prog': len(g.progs) - 1, 'installed': True})
+    if g.ncomp > 1 and r.random() < 0.4:
+        # stop() addressed to a registered component that was never run itself ("stop() on a manager that is not running has
+        # no effect"), while its root is inside run(): from the started handler or from some user handler
+        child_stop = ['stopMgr', r.randrange(1, g.ncomp), r.choice(codes + [5])]
+        victims = [h for c in g.comps for h in c['handlers'] if h['names'] and h['names'][0].isdigit()
+                   and int(h['names'][0]) <= g.nnames]
+        if victims and r.random() < 0.6:
+            v = r.choice(victims)
+            p = list(g.progs[v['prog']])
+            p.insert(r.randint(0, len(p)), child_stop)
+            g.progs.append(p)
+            v['prog'] = len(g.progs) - 1
+        else:
+            p = list(g.progs[started_prog])
+            p.insert(r.randint(0, len(p)), child_stop)
+            g.progs[started_prog] = p
     for t in timers:
         g.comps.append({'chan': '*', 'handlers': [], 'timer': t})
     ops = []
